@@ -485,7 +485,8 @@ class Function:
         cls, global_ctx_name, domain, service, callback, supports_response=SupportsResponse.NONE
     ):
         """Register a new service callback."""
-        key = f"{domain}.{service}"
+        # Home Assistant lower-cases service names: names that differ only in case are one service
+        key = f"{domain}.{service}".lower()
         if key not in cls.service_cnt:
             cls.service_cnt[key] = 0
         if key not in cls.service2global_ctx:
@@ -500,7 +501,8 @@ class Function:
     @classmethod
     def service_remove(cls, global_ctx_name, domain, service):
         """Remove a service callback."""
-        key = f"{domain}.{service}"
+        # Home Assistant lower-cases service names: names that differ only in case are one service
+        key = f"{domain}.{service}".lower()
         if cls.service_cnt.get(key, 0) > 1:
             cls.service_cnt[key] -= 1
             return
